@@ -122,8 +122,8 @@ def run(ctx):
     behaviours = []
     for cfg, inv in (("strict", "NoPanic"), ("strict_store", "StoredOnlyVerified"), ("strict_done", "DoneMeansFilled"),
                      ("strict_hasher", "HasherAcceptsOnlyVerified")):
-        s = ctx.tlc("bitswap/MCBitswap.tla", "bitswap/MCBitswap_%s.cfg" % cfg, must_pass=False, count=False, workers=16,
-                    timeout=420, deadlock=False)
+        s = ctx.tlc("bitswap/MCBitswap.tla", "bitswap/MCBitswap_%s%s.cfg" % (cfg, "_q" if ctx.quick else ""), must_pass=False,
+                    count=False, workers=16, timeout=600, deadlock=False)
         if s.violated == inv and s.trace:
             b = behaviour_from_trace(s, WANTS["WantsSame"], "cex_" + inv, "strict_" + inv)
             if b is None:
@@ -155,13 +155,22 @@ def run(ctx):
     json.dump(behaviours, open(beh_path, "w"))
     ctx.log("behaviours to replay: %d (%d counterexamples)" % (len(behaviours), len(behaviours) - k))
 
-    # 6. real code: cases, served blocks, behaviours, mutations
-    rep = ctx.go_driver("bitswap", env={"VERIF_CASES": cases_path, "VERIF_BEHAVIOURS": beh_path,
+    # 6. identifier <-> CID on the byte level: the model's boundary lattice (ShwapIDs.tla)
+    ri = ctx.tlc("shwap/ShwapIDs.tla", "shwap/ShwapIDs_%s.cfg" % tier, workers=16, timeout=900, deadlock=False)
+    idcases = [c for c in ri.printed.get("CASE", []) if isinstance(c, dict) and (c["c"]["kind"] == "cid" or (
+        c["c"]["kind"] == "id" and c["c"]["id"]["t"] in ("row", "sample", "rnd", "rangev0")))]
+    idpath = os.path.join(ctx.work, "cid_cases.json")
+    json.dump(idcases, open(idpath, "w"))
+    if not ri.ok or not idcases:
+        ctx.inconclusive("ShwapIDs produced no CID cases")
+
+    # 7. real code: cases, served blocks, behaviours, mutations, id<->CID
+    rep = ctx.go_driver("bitswap", env={"VERIF_CASES": cases_path, "VERIF_BEHAVIOURS": beh_path, "VERIF_CID_CASES": idpath,
                                         "VERIF_IDS_PER_TYPE": 6 if ctx.quick else 0,
                                         "VERIF_MUTATIONS": 2000 if ctx.quick else 20000}, timeout=1500)
     cnt = rep.get("counters", {}) or {}
     for need in ("cases_run", "cases_full_flow", "served_sample", "served_row", "served_rnd", "served_range", "mutated_blocks",
-                 "behaviours_replayed"):
+                 "behaviours_replayed", "cid_roundtrips_ok", "cid_rejected", "cid_id_refused"):
         if cnt.get(need, 0) < 1:
             ctx.inconclusive("vacuity: driver counter %s is zero (%s)" % (need, cnt))
     # a model counterexample that the real code did not reproduce: the model over-approximates (rule 1)
@@ -174,20 +183,12 @@ def run(ctx):
         if b["source"] in expect and expect[b["source"]] not in sigs:
             ctx.inconclusive("model counterexample %s was not reproduced on the real code (model over-approximates, or the code changed: update "
                              "Bitswap.tla)" % b["source"])
-
-    # 7. identifier <-> CID on the byte level: model + real constructors
-    ri = ctx.tlc("shwap/ShwapIDs.tla", "shwap/ShwapIDs_%s.cfg" % tier, workers=16, timeout=900, deadlock=False)
-    idcases = [c for c in ri.printed.get("CASE", []) if isinstance(c, dict) and (c["c"]["kind"] == "cid" or (
-        c["c"]["kind"] == "id" and c["c"]["id"]["t"] in ("row", "sample", "rnd", "rangev0")))]
-    if ri.ok and idcases:
-        idpath = os.path.join(ctx.work, "cid_cases.json")
-        json.dump(idcases, open(idpath, "w"))
+    if not ctx.quick:
+        # the same identifier cases through harness/drivers/ids (constructors of the shwap package itself)
         rid = ctx.go_driver("ids", env={"VERIF_CASES": idpath, "VERIF_SIGPREFIX": "C10", "VERIF_IDS_MODE": "cid"}, timeout=900)
         c2 = rid.get("counters", {}) or {}
         if c2.get("cid_roundtrips_ok", 0) < 1 or c2.get("cid_rejected", 0) < 1:
             ctx.inconclusive("vacuity: no id<->CID round trips / rejections on the real code: %s" % c2)
-    else:
-        ctx.inconclusive("ShwapIDs produced no CID cases")
 
     ctx.cover(traces_validated_against_impl=int(cnt.get("behaviours_replayed", 0)), exhaustive=True,
               cases_materialised=int(cnt.get("cases_run", 0)), behaviours=len(behaviours))
